@@ -120,11 +120,14 @@ inline Profile make_profile(const std::string& prop, const std::string& tier) {
 inline bool g_varied_lengths = false; // C15: overwrites with values of very different lengths
 inline bool g_inline_values = false;  // this case stores inline (uintptr_t) values: the word is the value id
 inline std::string value_of(std::uint32_t id) {
+    // decoder 2: three consecutive ids share a length, so an overwrite often replaces a value by one of the same length (the case an
+    // "update in place" shortcut would take)
+    const std::uint32_t g = vf::g_decoder >= 2 ? id / 3 : id;
     if (g_varied_lengths) {
         static const std::size_t lens[] = {4, 5, 8, 9, 64, 100, 1000, 4096, 7, 33};
-        return vf::value_bytes(id, lens[id % 10]);
+        return vf::value_bytes(id, lens[g % 10]);
     }
-    return vf::value_bytes(id, 4 + id % 9);
+    return vf::value_bytes(id, 4 + g % 9);
 }
 
 // decode a value observed through a pointer: returns id, or 0xffffffff for null, 0xfffffffe for torn / unknown bytes
@@ -720,15 +723,39 @@ struct Exec {
         std::uint64_t inv, resp;
     };
     std::vector<std::vector<MissRec>> misses; // get-miss with checked_version, per thread
+    // pointers a thread obtained from get / scan and still holds: while its session is open the stored copy behind such a pointer is
+    // neither reclaimed (C07) nor modified (an overwrite installs a new block): re-read at every later op boundary of that thread
+    struct Held {
+        const void* p;
+        std::size_t len;
+        std::uint32_t id;
+        std::string key;
+    };
+    std::vector<std::vector<Held>> held;
+    std::vector<std::string> value_errors;
     sched::Scheduler& S;
 
-    explicit Exec(const Scenario& s) : sc(s), hist(s.threads.size()), scans(s.threads.size()), errors(s.threads.size()), misses(s.threads.size()), S(sched::Scheduler::get()) {}
+    explicit Exec(const Scenario& s) : sc(s), hist(s.threads.size()), scans(s.threads.size()), errors(s.threads.size()), misses(s.threads.size()), held(s.threads.size()), value_errors(s.threads.size()), S(sched::Scheduler::get()) {}
+
+    void recheck_held(std::size_t t) {
+        if (g_inline_values) { return; }
+        sched::NoYield g;
+        for (auto& h : held[t]) {
+            std::uint32_t now = identify(h.p, h.len, true, sc.max_id);
+            if (now != h.id && value_errors[t].empty()) {
+                value_errors[t] = "the bytes behind a pointer returned for \"" + show(h.key) + "\" (value v" + std::to_string(h.id) + ", " + std::to_string(h.len) +
+                                  " bytes) changed while the reader's session was still open: now " +
+                                  (now == 0xfffffffeU ? std::string("a mixture / unknown bytes") : "value v" + std::to_string(now));
+            }
+        }
+    }
 
     void body(std::size_t t) {
         Token tok{};
         while (enter(tok) != status::OK) {}
         for (auto& o : sc.threads[t]) {
             sched::op_boundary();
+            recheck_held(t);
             switch (o.kind) {
                 case OpK::Put:
                 case OpK::PutUnique: {
@@ -765,6 +792,7 @@ struct Exec {
                         h.res = HRes::Ok;
                         sched::NoYield g;
                         h.rid = identify(out.first, out.second, true, sc.max_id);
+                        if (h.rid < 0xfffffffeU && held[t].size() < 8) { held[t].push_back({out.first, out.second, h.rid, o.key}); }
                     } else if (rc == status::WARN_NOT_EXIST) {
                         h.res = HRes::NotExist;
                     } else {
@@ -805,6 +833,7 @@ struct Exec {
                             std::uint32_t vid = identify(std::get<1>(tp), std::get<2>(tp), true, sc.max_id);
                             if (vid == 0xffffffffU) { r.null_value = true; }
                             r.items.emplace_back(std::get<0>(tp), vid);
+                            if (vid < 0xfffffffeU && held[t].size() < 8) { held[t].push_back({std::get<1>(tp), std::get<2>(tp), vid, std::get<0>(tp)}); }
                         }
                     }
                     scans[t].push_back(std::move(r));
@@ -847,6 +876,8 @@ struct Exec {
                 }
             }
         }
+        sched::op_boundary();
+        recheck_held(t);
         leave(tok);
     }
 };
@@ -948,6 +979,11 @@ inline vf::CaseResult run_scenario(const Profile& pf, const Scenario& sc, const 
         auto failx = [&](const std::string& sig, const std::string& msg) { throw Fail{sig, msg + "\n--- scenario ---\n" + sc_text}; };
         for (std::size_t t = 0; t < ex.errors.size(); ++t) {
             if (!ex.errors[t].empty()) { failx("illegal_status", "T" + std::to_string(t) + ": " + ex.errors[t]); }
+        }
+        if (pf.judge_history) {
+            for (std::size_t t = 0; t < ex.value_errors.size(); ++t) {
+                if (!ex.value_errors[t].empty()) { failx("value_changed_under_reader", "T" + std::to_string(t) + ": " + ex.value_errors[t]); }
+            }
         }
         // ---- quiescent observations (main thread)
         std::set<std::string> universe(sc.init_keys.begin(), sc.init_keys.end());
